@@ -718,36 +718,37 @@ fn run_history<B: Bench>(rig: Rig<B>, case: &Case, init_limit: usize, init_ttl: 
 // strategies
 
 fn op_strategy(bench: BenchKind) -> BoxedStrategy<Op> {
-    let k = 0u8..NKEYS;
+    // a few hot keys so that hits, overwrites and stale lookups are common
+    let k = prop::sample::select(vec![0u8, 0, 0, 1, 1, 2, 2, 3, 4, 4, 5]);
     let vs: BoxedStrategy<u16> = match bench {
-        BenchKind::Generic => prop_oneof![3 => prop::sample::select(vec![0u16, 1, 2, 4, 8, 12, 16, 24, 32, 49]), 2 => 0u16..=50].boxed(),
-        BenchKind::FileMeta => prop_oneof![3 => prop::sample::select(vec![0u16, 1, 2, 5, 10, 20, 40]), 2 => 0u16..=40].boxed(),
-        BenchKind::Stats => (0u16..=6).boxed(),
-        BenchKind::ListFiles => (0u16..=5).boxed(),
+        BenchKind::Generic => prop_oneof![3 => prop::sample::select(vec![0u16, 1, 2, 3, 4, 6, 8, 12, 16, 24, 49]), 3 => 0u16..=12].boxed(),
+        BenchKind::FileMeta => prop_oneof![3 => prop::sample::select(vec![0u16, 1, 2, 5, 10, 20, 40]), 3 => 0u16..=10].boxed(),
+        BenchKind::Stats => prop_oneof![3 => 0u16..=2, 1 => 0u16..=6].boxed(),
+        BenchKind::ListFiles => prop_oneof![3 => 0u16..=2, 1 => 0u16..=5].boxed(),
     };
     let ms = prop::sample::select(vec![0u32, 1, 2, 9, 10, 11, 50, 99, 100, 101, 500, 1000]);
     let ttl = prop::option::weighted(0.8, prop::sample::select(vec![1u32, 10, 100, 1000]));
     prop_oneof![
-        10 => (k.clone(), vs.clone()).prop_map(|(k, vs)| Op::Put { k, vs }),
-        6 => k.clone().prop_map(|k| Op::Get { k }),
-        3 => k.clone().prop_map(|k| Op::Contains { k }),
-        2 => k.clone().prop_map(|k| Op::Remove { k }),
+        20 => (k.clone(), vs.clone()).prop_map(|(k, vs)| Op::Put { k, vs }),
+        12 => k.clone().prop_map(|k| Op::Get { k }),
+        6 => k.clone().prop_map(|k| Op::Contains { k }),
+        4 => k.clone().prop_map(|k| Op::Remove { k }),
         1 => Just(Op::Clear),
-        3 => (0u16..=24).prop_map(|q| Op::Limit { q }),
-        1 => ttl.prop_map(|ms| Op::Ttl { ms }),
-        3 => ms.prop_map(|ms| Op::Advance { ms }),
-        1 => (0u8..3).prop_map(|t| Op::DropTable { t }),
-        3 => (k.clone(), 0u8..6).prop_map(|(k, how)| Op::Touch { k, how }),
-        6 => (k, vs, prop_oneof![3 => Just(0u8), 1 => Just(1u8), 1 => Just(2u8)]).prop_map(|(k, vs, fp)| Op::Lookup { k, vs, fp }),
+        5 => (0u16..=24).prop_map(|q| Op::Limit { q }),
+        2 => ttl.prop_map(|ms| Op::Ttl { ms }),
+        8 => ms.prop_map(|ms| Op::Advance { ms }),
+        2 => (0u8..3).prop_map(|t| Op::DropTable { t }),
+        6 => (k.clone(), 0u8..6).prop_map(|(k, how)| Op::Touch { k, how }),
+        14 => (k, vs, prop_oneof![3 => Just(0u8), 1 => Just(1u8), 1 => Just(2u8)]).prop_map(|(k, vs, fp)| Op::Lookup { k, vs, fp }),
     ]
     .boxed()
 }
 
 fn case_strategy(max_ops: usize) -> BoxedStrategy<Case> {
     let bench = prop_oneof![4 => Just(BenchKind::Generic), 2 => Just(BenchKind::FileMeta), 2 => Just(BenchKind::Stats), 2 => Just(BenchKind::ListFiles)];
-    let ttl = || prop::option::weighted(0.4, prop::sample::select(vec![1u32, 10, 100, 1000]));
+    let ttl = || prop::option::weighted(0.5, prop::sample::select(vec![1u32, 10, 100, 1000]));
     let key_sizes = prop::collection::vec(prop::sample::select(vec![0usize, 1, 2, 4, 8]), NKEYS as usize);
-    (bench, any::<bool>(), prop_oneof![1 => Just(0u16), 8 => 1u16..=24], ttl(), ttl(), key_sizes)
+    (bench, any::<bool>(), prop_oneof![1 => Just(0u16), 12 => 1u16..=24], ttl(), ttl(), key_sizes)
         .prop_flat_map(move |(bench, supplied, limit_q, ttl_ms, own_ttl_ms, key_sizes)| {
             prop::collection::vec(op_strategy(bench), 1..=max_ops).prop_map(move |ops| Case { bench, supplied, limit_q, ttl_ms, own_ttl_ms, key_sizes: key_sizes.clone(), ops })
         })
@@ -770,7 +771,7 @@ impl Property for C40a {
         case_strategy(tier.pick(40, 120))
     }
     fn budget(&self, tier: Tier) -> Budget {
-        Budget::new(tier.pick(40_000, 2_000_000), tier.pick(8, 16)).min_nontrivial(tier.pick(1_000, 50_000))
+        Budget::new(tier.pick(300_000, 5_000_000), tier.pick(8, 16)).min_nontrivial(tier.pick(20_000, 300_000))
     }
     fn rule(&self) -> String {
         "history of 1..=40 (thorough 120) put/get/contains_key/remove/clear/update_cache_limit/update_cache_ttl/advance-clock/drop_table_entries/touch-file/lookup ops over 6 keys on \
